@@ -13,8 +13,8 @@ set_option linter.unusedVariables false
 namespace Furiko.JobCtl
 open Furiko Furiko.WQ
 
-theorem tasksForRefs_frame {s s' : Sys} (hf : Frame s s') (refs : List TaskRef) :
-    tasksForRefsConfirmed s' refs = tasksForRefsConfirmed s refs := by
+theorem tasksForRefs_frame {s s' : Sys} (hf : Frame s s') (jo : JobObj) (refs : List TaskRef) :
+    tasksForRefsConfirmed s' jo refs = tasksForRefsConfirmed s jo refs := by
   unfold tasksForRefsConfirmed
   congr 1
   funext ref
